@@ -1,7 +1,7 @@
 SPECIFICATION Spec
-CONSTANTS MaxLen = 5
+CONSTANTS MaxLen = 4
 Alphabet <- PAlpha5
 Precs <- PrecsDesign
-Fault = "digit"
+Fault = "trunc"
 INVARIANTS Rounds
 CHECK_DEADLOCK FALSE
